@@ -448,11 +448,47 @@ func checkC01(c *Ctx) {
 				return true
 			}
 			cs := canon(info, ifs.Cond)
-			if !(strings.HasSuffix(cs, ".Len() == 0")) {
+			arm := ast.Node(ifs.Body)
+			switch {
+			case strings.HasSuffix(cs, ".Len() == 0"):
+			case strings.HasPrefix(cs, "len(") && strings.HasSuffix(cs, ") == 0"):
+			case strings.HasPrefix(cs, "len(") && strings.HasSuffix(cs, ") > 0") && ifs.Else != nil:
+				arm = ifs.Else
+			default:
+				return true
+			}
+			// len(x) forms: only value lists ([]interface{})
+			if strings.HasPrefix(cs, "len(") {
+				isValueList := false
+				ast.Inspect(ifs.Cond, func(x ast.Node) bool {
+					if ce, ok := x.(*ast.CallExpr); ok && len(ce.Args) == 1 {
+						if tv, ok := info.Types[ce.Args[0]]; ok {
+							if sl, ok := tv.Type.Underlying().(*types.Slice); ok {
+								if it, ok := sl.Elem().Underlying().(*types.Interface); ok && it.Empty() {
+									isValueList = true
+								}
+							}
+						}
+					}
+					return true
+				})
+				if !isValueList {
+					return true
+				}
+			}
+			// only arms of functions that bind the elements of that slice
+			bindsElems := false
+			ast.Inspect(ifs, func(x ast.Node) bool {
+				if ce, ok := x.(*ast.CallExpr); ok && isAddVar(ce) {
+					bindsElems = true
+				}
+				return true
+			})
+			if !bindsElems {
 				return true
 			}
 			okArm := false
-			ast.Inspect(ifs.Body, func(x ast.Node) bool {
+			ast.Inspect(arm, func(x ast.Node) bool {
 				ce, ok := x.(*ast.CallExpr)
 				if !ok {
 					return true
